@@ -14,6 +14,9 @@ structure Dec where
   p    : Bytes
   off  : Nat
   fast : Bool
+  /-- `keyStart`, `keyEnd`: where the key read by the most recent successful `DecodeTag` starts / ends -/
+  ks   : Nat := 0
+  ke   : Nat := 0
 deriving Repr, DecidableEq
 
 def Dec.new (p : Bytes) : Dec := { p := p, off := 0, fast := false }
@@ -213,7 +216,9 @@ def Dec.skipLen (d : Dec) (wt : Nat) : Res Nat :=
 def Dec.skip (d : Dec) (tag wt : Nat) : Dec × DecOut :=
   if d.off ≥ d.len then (d, .err) else
   let sz := sizeOfTagKey tag
-  let bof := d.off - sz            -- clamped at 0, as the source does
+  -- `offset - sz` clamped at 0; when `Skip` directly follows the `DecodeTag` that read the key, the start
+  -- of that key (they differ when the key was not minimally encoded)
+  let bof := if d.ke = d.off ∧ d.ke > d.ks then d.ks else d.off - sz
   match d.skipCheck tag wt bof sz with
   | .err => (d, .err)
   | .panic => (d, .panic)
@@ -249,7 +254,7 @@ def Dec.step (d : Dec) : DecOp → Dec × DecOut × Nat
       match decodeVarint s with
       | .ok (v, n) =>
         if n < 1 ∨ v < 1 ∨ v >>> 3 > maxTagValue then (d, .err, 0)
-        else ({ d with off := d.off + n }, .ok (.tag (v >>> 3) (v &&& 7)), 0)
+        else ({ d with off := d.off + n, ks := d.off, ke := d.off + n }, .ok (.tag (v >>> 3) (v &&& 7)), 0)
       | .err => (d, .err, 0)
       | .panic => (d, .panic, 0)
     | _ => (d, .panic, 0)
